@@ -20,7 +20,9 @@ enum NEntry {
 }
 
 fn gen_int(rng: &mut Rng) -> (i64, Vec<u8>) {
-    let v: i64 = match rng.usize(8) {
+    let v: i64 = match rng.usize(9) {
+        // the limits of the number type the iterators yield (isize) and of the narrower widths, and their neighbours
+        8 => *rng.pick(&[i64::MIN, i64::MIN + 1, i64::MAX, i64::MAX - 1, i32::MIN as i64, i32::MIN as i64 - 1, i32::MAX as i64, i32::MAX as i64 + 1, u32::MAX as i64, u32::MAX as i64 + 1, -32768, 32767, 65535, 65536, -128, 127, 255, 256, -1]),
         0 => 0,
         1 => rng.range(-9, 9),
         2 => rng.range(-1_000_000, 1_000_000),
